@@ -494,6 +494,112 @@ def c04_8(ctx):
     return out
 
 
+def _shape_pools(repo):
+    """(opcode values, push lengths, command counts) that the template predicates and typed constructors of script.py
+    compare against, plus one fresh member of each (the cell "none of the constants")"""
+    m = repo.module("script")
+    ops, lens, counts = set(), set(), set()
+    for qn, fn in m.functions.items():
+        c, _, name = qn.rpartition(".")
+        if not (name.startswith("is_") or name == "__init__" or (c == "ScriptPubKey" and name == "parse")):
+            continue
+        for n in ast.walk(fn):
+            if isinstance(n, ast.Compare) and len(n.ops) == 1:
+                a, b = n.left, n.comparators[0]
+                for x, y in ((a, b), (b, a)):
+                    if isinstance(y, ast.Constant) and type(y.value) is int and 0 <= y.value <= 0xFF:
+                        if isinstance(x, ast.Call) and call_name(x) == "len":
+                            (counts if "commands" in ast.unparse(x) and "[" not in ast.unparse(x) else lens).add(y.value)
+                        else:
+                            ops.add(y.value)
+                    elif isinstance(y, (ast.Tuple, ast.List, ast.Set)):
+                        for el in y.elts:
+                            if isinstance(el, ast.Constant) and type(el.value) is int and 0 <= el.value <= 0xFF:
+                                (lens if isinstance(x, ast.Call) and call_name(x) == "len" else ops).add(el.value)
+            elif isinstance(n, ast.List):
+                for el in n.elts:
+                    if isinstance(el, ast.Constant) and type(el.value) is int and 0 <= el.value <= 0xFF:
+                        ops.add(el.value)
+    fresh_op = next(v for v in (0x61, 0x6A, 0x52, 0x75) + tuple(range(1, 256)) if v not in ops)
+    fresh_len = next(v for v in (33, 21, 31, 19, 64) if v not in lens)
+    fresh_count = next(v for v in range(1, 9) if v not in counts)
+    return sorted(ops) + [fresh_op], sorted(lens) + [fresh_len], sorted(counts) + [fresh_count]
+
+
+def c04_9(ctx):
+    """ScriptPubKey.parse re-types a parsed script into a template class only when the commands are exactly that template:
+    the object returned must carry the command list that was read (cell evaluation over every combination of the opcode
+    values / push lengths / command counts the code compares against, one representative of "anything else" each)"""
+    import itertools
+
+    from sa.cells import Evaluator, Obj, Raised, Undecided
+    spec = "script:ScriptPubKey.parse"
+    mod, fn = rl.get(ctx, spec)
+    inner = [c for c in ast.walk(fn) if isinstance(c, ast.Call) and isinstance(c.func, ast.Attribute) and c.func.attr in ("parse", "raw_parse")
+             and (ast.unparse(c.func.value) in ("super()", "Script") or ast.unparse(c.func.value).startswith("super("))]
+    if len(inner) != 1:
+        raise AnalysisError("ScriptPubKey.parse: the call that reads the generic script was not found")
+    ops, lens, counts = _shape_pools(ctx.repo)
+    items = list(ops) + [bytes(n) for n in lens]
+    shapes = []
+    for n in counts:
+        if n <= 3:
+            shapes += [list(t) for t in itertools.product(items, repeat=n)]
+    # longer templates: every list literal of a typed constructor with up to two positions replaced
+    tmpl = []
+    for qn, f in ctx.repo.module("script").functions.items():
+        if qn.endswith("ScriptPubKey.__init__"):
+            for lst in ast.walk(f):
+                if isinstance(lst, ast.List) and len(lst.elts) > 3:
+                    tmpl.append([el.value if isinstance(el, ast.Constant) else None for el in lst.elts])
+    for t in tmpl:
+        holes = [i for i, v in enumerate(t) if v is None]
+        for fill in itertools.product([bytes(n) for n in lens], repeat=len(holes)):
+            base = list(t)
+            for i, v in zip(holes, fill):
+                base[i] = v
+            shapes.append(base)
+            for i in range(len(base)):
+                for v in items:
+                    if v != base[i]:
+                        b2 = list(base)
+                        b2[i] = v
+                        shapes.append(b2)
+            shapes.append(base + [ops[-1]])
+    key = ast.unparse(inner[0])
+    bad = None
+    retyped = set()
+    for sh in shapes:
+        src = Obj("script", "ScriptPubKey", {"commands": list(sh)})
+        ev = Evaluator(ctx.repo, hooks={key: src})
+        ctx.count("cells")
+        try:
+            res = ev.call(spec, [None], self_obj=__import__("sa.cells", fromlist=["ClassRef"]).ClassRef("script", "ScriptPubKey"))
+        except Undecided as u:
+            return [ctx.err(spec, "re-typing dispatch not evaluable on %s: %s" % (_shape_txt(sh), u), fn, mod)]
+        except Raised as r:
+            bad = (sh, "raises %s" % r.name)
+            break
+        if not isinstance(res, Obj) or "commands" not in res.attrs:
+            return [ctx.err(spec, "re-typing dispatch returns %r on %s" % (res, _shape_txt(sh)), fn, mod)]
+        if res.cls != "ScriptPubKey":
+            retyped.add(res.cls)
+        if res.attrs["commands"] != list(sh) or [type(x) for x in res.attrs["commands"]] != [type(x) for x in sh]:
+            bad = (sh, "is returned as %s with commands %s" % (res.cls, _shape_txt(res.attrs["commands"])))
+            break
+    if bad:
+        return [ctx.bad(spec, "a script with commands %s %s: the output script re-serialises to different bytes (and a different txid)" % (
+            _shape_txt(bad[0]), bad[1]), fn, mod, key="retype", detail={"witness_commands": _shape_txt(bad[0])})]
+    if len(retyped) < 3:
+        raise AnalysisError("ScriptPubKey.parse: fewer than 3 template classes reached (%s)" % sorted(retyped))
+    return [ctx.ok(spec, "all %d command-list cells (opcodes %s, push lengths %s, counts %s) come back with the commands that were read; template classes reached: %s" % (
+        len(shapes), [hex(o) for o in ops], lens, counts, ", ".join(sorted(retyped))), fn, mod, key="retype")]
+
+
+def _shape_txt(sh):
+    return "[" + ", ".join(hex(x) if isinstance(x, int) else "<%d bytes>" % len(x) if isinstance(x, bytes) else repr(x) for x in sh) + "]"
+
+
 OBLIGATIONS = [
     ("C04.1", "RANGE partition", c04_1),
     ("C04.2", "RANGE partition", c04_2),
@@ -503,5 +609,6 @@ OBLIGATIONS = [
     ("C04.6", "NONINT", c04_6),
     ("C04.7", "GUARD", c04_7),
     ("C04.8", "COUNT", c04_8),
+    ("C04.9", "CELLS re-typing", c04_9),
 ]
 FLOORS = {"C04.1": 4, "C04.2": 5, "C04.3": 7, "C04.4": 10, "C04.5": 14, "C04.6": 5, "C04.7": 4, "C04.8": 5}
